@@ -119,14 +119,21 @@ BarsPrefix(obs) == IF Len(obs.subkeys) > 1 \/ (Len(obs.subkeys) = 1 /\ obs.subke
 RowMax(obs, stacked) ==
   SeqMax([i \in 1..Len(obs.rows) |-> IF stacked THEN SeqSum(obs.rows[i][2]) ELSE SeqMax(obs.rows[i][2], 0)], 0)
 BarsRMax(r, stacked) == SeqMax([i \in 1..Len(r.prev) |-> RowMax(r.prev[i], stacked)], RowMax(r.obs, stacked))
+\* the mark of sub-key i (from 0) in the legend: the glyph AND the colour its bar segment is drawn with
+LegendMark(r, i) ==
+  IF r.color THEN GroupColor(i) \o <<(IF r.uni THEN FULL ELSE PIPE)>> \o ResetSeq ELSE <<AsciiKey(i)>>
 LegendWhy(r) ==
   LET want == Flatten([i \in 1..Len(r.obs.subkeys) |->
                 (IF i = 1 THEN <<>> ELSE <<32, 32>>) \o
                 <<(IF r.color THEN (IF r.uni THEN FULL ELSE PIPE) ELSE AsciiKey(i - 1))>> \o <<32>> \o K(r, r.obs.subkeys[i])])
+      raw == Flatten([i \in 1..Len(r.obs.subkeys) |-> (IF i = 1 THEN <<>> ELSE <<32, 32>>) \o LegendMark(r, i - 1) \o <<32>> \o r.obs.subkeys[i]])
       v == Vis(r.lines[1], r.color)
-  IN IF SubSeq(v, SkipSp(v, 1), Len(v)) = want THEN "ok" ELSE "bars:legend"
+      ln == r.lines[1]
+  IN IF SubSeq(v, SkipSp(v, 1), Len(v)) # want THEN "bars:legend"
+     ELSE IF SubSeq(ln, SkipSp(ln, 1), Len(ln)) # raw THEN "bars:legend-colour"
+     ELSE "ok"
 \* grouped: one line per (row, sub-key): [key] bar " " number
-GroupedLine(r, ln, first, key, val, mx) ==
+GroupedLineC(r, ln, first, key, val, mx, ci) ==
   LET v   == Vis(ln, r.color)
       num == <<32>> \o FC(r, val, 0, mx)
       rest == SubSeq(v, 1, Len(v) - Len(num))
@@ -140,6 +147,8 @@ GroupedLine(r, ln, first, key, val, mx) ==
      ELSE IF ~first /\ ~AllSpaces(head) THEN [why |-> "bars:key", bar |-> <<>>]
      ELSE IF ~BarShapeOK(bar, 50, r.uni) THEN [why |-> "bars:barwidth", bar |-> bar]
      ELSE IF Lin(r) /\ ~BarObs(bar, LinScale(val, 0, mx), 50, r.uni) THEN [why |-> "bars:barlength", bar |-> bar]
+     ELSE IF r.color /\ ci >= 0 /\ ~(LET es == EscSeqs(ln) IN Len(es) >= 2 /\ es[Len(es) - 1] = GroupColor(ci) /\ es[Len(es)] = ResetSeq)
+          THEN [why |-> "bars:colour", bar |-> bar]           \* the bar of sub-key i in the colour of its legend entry
      ELSE [why |-> "ok", bar |-> bar]
 GroupedWhy(r) ==
   LET k  == Len(r.obs.subkeys)
@@ -151,7 +160,7 @@ GroupedWhy(r) ==
      ELSE IF p = 1 /\ LegendWhy(r) # "ok" THEN LegendWhy(r)
      ELSE LET P == [x \in 1..(R * k) |->
                       LET row == (x - 1) \div k + 1   i == Rem(x - 1, k) + 1
-                      IN GroupedLine(r, r.lines[p + x], i = 1, r.obs.rows[row][1], r.obs.rows[row][2][i], mx)]
+                      IN GroupedLineC(r, r.lines[p + x], i = 1, r.obs.rows[row][1], r.obs.rows[row][2][i], mx, i - 1)]
               vals == [x \in 1..(R * k) |-> r.obs.rows[(x - 1) \div k + 1][2][Rem(x - 1, k) + 1]]
           IN IF \E x \in 1..(R * k) : P[x].why # "ok" THEN P[CHOOSE x \in 1..(R * k) : P[x].why # "ok"].why
              ELSE IF ~Monotone([x \in 1..(R * k) |-> <<vals[x], BarMeasure(P[x].bar, r.uni)>>]) THEN "bars:monotone"
@@ -348,13 +357,17 @@ BodyLen(r) ==
 \* configured number of lines, every other renderer directly below what it drew
 FooterBase(r) == IF r.rdr = "histo" THEN r.rows ELSE BodyLen(r)
 \* below the drawing the screen is what was there before the render (r.before) with this render's footers written
-\* over it, VirtualTerm-wise: lines in between exist and are empty, nothing else changes, nothing fails
+\* over it, VirtualTerm-wise: lines in between exist and are empty, nothing else changes, nothing fails (a renderer may
+\* also blank what an earlier, longer drawing left below its present one)
 FooterWhy(r) ==
   LET B == BodyLen(r)
       base == FooterBase(r)
       exp == VWrites(r.before, [i \in 1..Len(r.foot) |-> <<base + r.foot[i][1], r.foot[i][2]>>])
   IN IF Len(r.lines) # Max2(B, Len(exp)) THEN r.rdr \o ":footer-lines"
-     ELSE IF \E j \in (B + 1)..Len(r.lines) : r.lines[j] # VGet(exp, j - 1) THEN r.rdr \o ":footer"
+     ELSE IF \E j \in (B + 1)..Len(r.lines) :
+               /\ r.lines[j] # VGet(exp, j - 1)
+               \* a line of an earlier, longer drawing that no footer of this render addresses may also have been blanked
+               /\ ~(r.lines[j] = <<>> /\ \A i \in 1..Len(r.foot) : base + r.foot[i][1] # j - 1) THEN r.rdr \o ":footer"
      ELSE "ok"
 
 BodyWhy(r) ==
